@@ -22,6 +22,9 @@ TLA_CP = "/opt/veriftools/tla/tla2tools.jar:/opt/veriftools/tla/CommunityModules
 GOENV = dict(os.environ, GOFLAGS="-mod=mod", GOPROXY="off", GOSUMDB="off", GOTOOLCHAIN="local", CGO_ENABLED=os.environ.get("CGO_ENABLED", "0"))
 
 
+MAX_VIOLATIONS = int(os.environ.get("VERIF_MAX_VIOLATIONS", "6"))   # witnesses reported per run (each is reproduced in isolation)
+
+
 class Infra(Exception):
     """Infrastructure failure: exit 2, never a violation."""
 
@@ -109,7 +112,9 @@ def run_tlc(module, cfg_text, workdir=None, workers=8, timeout=1800, extra=(), c
     with open(cfg, "w") as f:
         f.write(cfg_text)
     meta = os.path.join(wd, "meta-" + module + "-" + str(os.getpid()) + "-" + str(time.time_ns()))
-    java = ["java", "-XX:+UseParallelGC", "-Xmx" + heap, "-Xss256m"]
+    jtmp = os.path.join(wd, "jtmp")
+    os.makedirs(jtmp, exist_ok=True)
+    java = ["java", "-XX:+UseParallelGC", "-Xmx" + heap, "-Xss256m", "-Djava.io.tmpdir=" + jtmp]
     if deque:
         java.append("-Dtlc2.tool.queue.IStateQueue=StateDeque")
     cmd = java + ["-cp", TLA_CP, "tlc2.TLC", "-config", cfg, "-workers", str(workers), "-metadir", meta, "-noGenerateSpecTE"]
